@@ -74,8 +74,14 @@ def gen_tree_case(rng):
       skip = rng.choice([{'k': 'all'}, {'k': 'names', 'v': ['zz.q'], '_type': rng.choice(['list', 'tuple', 'set'])}])
       S.add_binding(b2, 'a', 'zz.q', 'x', rng.randint(0, 9))
       lines = b2.text().rstrip('\n').split('\n')
-    ops.append({'op': 'parsefiles', 'skip': skip, 'files': [['top.gin', stmts]], 'bindings': b2.stmts,
-                'finalize': fin, '_binding_lines': lines, '_files': files})
+    if rng.random() < 0.08 and not fault:
+      # nothing to parse at all: the entry point still finalizes unless told not to
+      ops.append({'op': 'parsefiles', 'skip': {'k': 'no'}, 'files': [], 'bindings': [], 'finalize': fin,
+                  '_binding_lines': rng.choice([[], None]), '_files': {}})
+      flat[:] = []
+    else:
+      ops.append({'op': 'parsefiles', 'skip': skip, 'files': [['top.gin', stmts]], 'bindings': b2.stmts,
+                  'finalize': fin, '_binding_lines': lines, '_files': files})
   ops += [{'op': 'config'}, {'op': 'imports'}, {'op': 'locked'}]
   return {'dom': 'gin', 'ops': ops, '_flat_text': flat_text(flat), '_kind': 'tree', '_nregs': len(regs),
           '_missing': bool(fault and fault[2]), '_entry': entry}
@@ -98,8 +104,12 @@ def gen_resolve_case(rng):
   name = 'res_%04d.gin' % rng.randint(0, 9999)
   if pkg:
     name = 'c14rp%d/%s' % (rng.randint(0, 99999), name)
+  rereg = rng.random() < 0.3 and len(prefixes) > 1
+  if rereg:
+    # a location registered a second time is simply in the list twice (appended): nothing moves
+    prefixes = prefixes + [prefixes[1]]
   ops = [{'op': 'resolve', 'prefixes': prefixes, 'readers': readers, 'abs': is_abs,
-          'present': [list(x) for x in present], '_name': name, '_pkg': pkg, '_bad_include': bool(present) and rng.random() < 0.25,
+          'present': [list(x) for x in present], '_name': name, '_pkg': pkg, '_rereg': rereg, '_bad_include': bool(present) and rng.random() < 0.25,
           '_dirs': [l for l in prefixes + ['syspath'] if rng.random() < 0.2]}]
   return {'dom': 'gin', 'ops': ops, '_kind': 'resolve', '_nregs': 0}
 
@@ -163,7 +173,7 @@ def nontrivial(case, impl):
   def depth(stmts):
     return max([1 + depth(s['file']) for s in stmts if s.get('k') == 'include' and s.get('file')] + [0])
   op = case['ops'][case['_nregs']]
-  stmts = op['stmts'] if op['op'] == 'parse' else op['files'][0][1]
+  stmts = op['stmts'] if op['op'] == 'parse' else (op['files'][0][1] if op['files'] else [])
   return depth(stmts) >= 1
 
 
